@@ -416,8 +416,21 @@ fn ret_check(
     got: usize,
     want: usize,
     idx: usize,
+    pending: bool,
 ) -> Result<(), Fail> {
-    if got != want {
+    if got > want && pending {
+        // Consumption went past the stable prefix while a placeholder is
+        // pending: the consumer was handed a pending placeholder or bytes
+        // that follow one.
+        Err(fail(
+            "C04",
+            "C04.consumed_past_placeholder",
+            format!(
+                "obj {}: {} removed {} but only {} were consumable before the earliest pending placeholder",
+                idx, what, got, want
+            ),
+        ))
+    } else if got != want {
         Err(fail(
             "C03",
             "C03.ret",
@@ -863,7 +876,7 @@ fn exec_op(
             let k = n.min(sp.len());
             let bytes: usize = sp[..k].iter().map(|s| s.len()).sum();
             let got = o.iov.consumer().consume(n);
-            ret_check("consume", got, k, oi)?;
+            ret_check("consume", got, k, oi, o.first_hole().is_some())?;
             o.cells.drain(..bytes.min(o.cells.len()));
             o.consumed += bytes as u64;
         }
@@ -884,7 +897,7 @@ fn exec_op(
             let stable = stable_bytes(&o.iov);
             let want = n.min(stable);
             let got = o.iov.consumer().advance_slices(n);
-            ret_check("advance_slices", got, want, oi)?;
+            ret_check("advance_slices", got, want, oi, o.first_hole().is_some())?;
             if want > 0 && want < stable {
                 stats.bump("probe.partial_byte_consumption");
             }
@@ -902,7 +915,7 @@ fn exec_op(
                 .consumer()
                 .read(&mut buf)
                 .map_err(|e| fail("C03", "C03.read_err", format!("Read failed: {}", e)))?;
-            ret_check("Read::read", got, want, oi)?;
+            ret_check("Read::read", got, want, oi, o.first_hole().is_some())?;
             for (i, b) in buf[..got].iter().enumerate() {
                 if o.cells[i] != *b as u32 {
                     return Err(fail(
@@ -1246,7 +1259,7 @@ impl World for IovecWorld {
         };
         log.u64(violation.is_some() as u64);
         Outcome {
-            violation,
+            violations: violation.into_iter().collect(),
             log_hash: log.0,
             nontrivial: effective >= 8 && produced && consumed,
         }
